@@ -18,6 +18,7 @@ INVARIANT RandCtorOK
 INVARIANT QutipOK
 INVARIANT FromStabOK
 INVARIANT StepsValid
+INVARIANT StepsHermOK
 INVARIANT StepsRotOK
 INVARIANT StepsTransformOK
 INVARIANT StepsGateOK
